@@ -15,6 +15,7 @@ mod handshake;
 mod inbound;
 mod framing;
 mod io;
+mod localproc;
 mod md5;
 mod nodeenv;
 mod rpc;
@@ -49,6 +50,7 @@ fn main() {
         "pid-run" => pid::run(rest),
         "rpc-run" => rpc::run(rest),
         "inbound-run" => inbound::run(rest),
+        "localproc-run" => localproc::run(rest),
         other => {
             eprintln!("unknown subcommand {other}");
             2
